@@ -11,7 +11,7 @@ import fieldclass
 import symex
 from ir import short
 from norm import Normalizer, equal
-from terms import cf, cu, mk_gamma, mk_not, show, subterms, TRUE, FALSE
+from terms import is_const, cf, cu, mk_gamma, mk_not, show, subterms, TRUE, FALSE
 
 BAR = ("ref", ("a0",), None)
 X = ("arg", "a0")
@@ -461,35 +461,62 @@ def foreign_constant(got, want):
 
 def foreign_denominator(got, want, den_map=None):
     """a division by something the documented formula does not divide by: over the rationals (t * v) / v is t, (t*a + t*b) / (a + b)
-    is t — in binary64 they are NaN whenever the divisor is 0 or the product overflows.  The implementation may divide only by the
-    (normalised) divisors that occur in the documented term, and by constants."""
-    from norm import Normalizer
+    is t — in binary64 they are NaN whenever the divisor is 0 or the product overflows.  Every maximal arithmetic subterm of the
+    implementation is brought to one fraction WITHOUT cancelling anything; its denominator (up to a constant factor) must be the
+    denominator of such a subterm of the documented term.  `2*s / w / (w + 1)` and `s / (w*(w + 1)/2)` have the same one."""
+    from norm import Normalizer, Rat, _replace
     if not isinstance(got, tuple) or not isinstance(want, tuple):
         return None
     N = Normalizer()
+    ARI = ("+", "-", "*", "/", "neg", "i2f")
 
-    def dens(t, m=None):
-        out = {}
-        for x in subterms(t):
-            if isinstance(x, tuple) and len(x) == 3 and x[0] == "/":
+    def in_divisors(t):
+        # (C01: accumulators inside a divisor are read through their window functionals; elsewhere they stay atoms, so that the
+        # hypotheses' own denominators do not count as divisions of the code)
+        if not den_map or not isinstance(t, tuple) or not t:
+            return t
+        if t[0] == "/" and len(t) == 3:
+            return ("/", in_divisors(t[1]), _replace(t[2], den_map))
+        return tuple(in_divisors(x) if isinstance(x, tuple) else x for x in t)
+
+    def totals(t, out, top=True):
+        if not isinstance(t, tuple) or not t:
+            return
+        if not isinstance(t[0], str):
+            for x in t:
+                totals(x, out, True)
+            return
+        if t[0] in ARI:
+            if top:
                 try:
-                    d_ = x[2]
-                    if m:
-                        from norm import _replace
-                        d_ = _replace(d_, m)   # (C01: accumulators inside a divisor are read through their window functionals)
-                    r = N.rat(d_).canon()
-                    if r.n.is_const() and r.d.is_const():
-                        continue
-                    out[("rat", r.n.key(), r.d.key())] = x[2]
-                    # a divisor that is itself a quotient a/b also divides by a (and multiplies by b)
-                    out[("rat", r.n.key(), Normalizer().rat(("c", "f64", 1.0)).n.key())] = x[2]
+                    r = N.rat(t).canon()
+                    d = r.d
+                    ld = d.lead()
+                    if ld not in (0, 1):
+                        d = d.scale(1 / ld)
+                    if not d.is_const():
+                        out[d.key()] = t
                 except Exception:
-                    out[repr(x[2])] = x[2]
-        return out
-    dw = dens(want)
-    for k, d in dens(got, den_map).items():
+                    out[repr(t)[:80]] = t
+            for x in t[1:]:
+                totals(x, out, False)
+        else:
+            for x in t[1:]:
+                totals(x, out, True)
+    def unclamp(t):
+        # a clamp at zero divides by nothing: for this purpose max(y, 0.0) is y
+        if not isinstance(t, tuple) or not t:
+            return t
+        if t[0] == "max" and len(t) == 3 and (t[1] in (cf(0.0),) or t[2] in (cf(0.0),)):
+            return unclamp(t[2] if t[1] == cf(0.0) else t[1])
+        return tuple(unclamp(x) if isinstance(x, tuple) else x for x in t)
+    dw, dg = {}, {}
+    totals(unclamp(want), dw)
+    totals(unclamp(in_divisors(got)), dg)
+    for k, t in dg.items():
         if k not in dw:
-            return "a division by %s, which the documented formula does not divide by (0/0 or inf/inf where it vanishes or overflows)" % show(d)[:70]
+            dens = [x[2] for x in subterms(t) if isinstance(x, tuple) and len(x) == 3 and x[0] == "/" and not is_const(x[2])]
+            return "a division by %s, which the documented formula does not divide by like this (0/0 or inf/inf where it vanishes or overflows)" % (show(dens[0])[:70] if dens else "?")
     return None
 
 
@@ -517,8 +544,15 @@ def float_hazard(got, want, den_map=None):
         n += 1
         if n > 1024:
             return "more case splits than the hazard scan enumerates (UNRECOGNISED)"
-        f.pop(EQ_KEY, None)
+        eqs = f.pop(EQ_KEY, None)
         g_, w_ = resolve(got, f), resolve(want, f)
+        if eqs:
+            # on this outcome some operand pairs are equal (as in norm.equal): a term may be written with either of them
+            from norm import _replace
+            m_ = {}
+            for x_, y_ in eqs:
+                m_[y_] = m_.get(x_, x_)
+            g_, w_ = _replace(g_, m_), _replace(w_, m_)
         hz = hazards(g_, N)
         if hz:
             return hz[0]
